@@ -68,62 +68,115 @@ let final_ok (st : state) (universe : name list) (finals : (string * string) lis
       | "rib" -> rib_listing_string st.rib = join_sorted (items_of value)
       | _ -> true) finals
 
-let check_round (round : string) (universe : name list) (recs : hrec list) (finals : (string * string) list) : unit =
-  let ops = Array.of_list recs in
+(* generic search for a sequential witness (Wing-Gong style DFS, memoised on (set of linearised operations, state)) *)
+type 'op grec = { g_inv : int; g_resp : int; g_text : string; g_op : 'op; g_res : string }
+
+let linearize (type st) (round : string) (tag : string) (ops : 'op grec array) (init : st)
+    (apply : st -> 'op -> st * string option) (key : st -> string) (final_ok : st -> bool) : unit =
   let n = Array.length ops in
-  if n = 0 then Printf.printf "LIN %s ok ops=0 nodes=0\n" round
-  else if n > 60 then Printf.printf "LIN %s FAIL ops=%d too-many-operations\n" round n
+  if n = 0 then Printf.printf "%s %s ok ops=0 nodes=0\n" tag round
+  else if n > 60 then Printf.printf "%s %s FAIL ops=%d too-many-operations\n" tag round n
   else begin
     let full = (1 lsl n) - 1 in
     let seen : (int * string, unit) Hashtbl.t = Hashtbl.create 1024 in
-    let nodes = ref 0 in
-    let best = ref 0 in
-    let why = ref "" in
-    let rec dfs (mask : int) (st : state) : bool =
+    let nodes = ref 0 and best = ref 0 and why = ref "" in
+    let popcount m = let c = ref 0 in for b = 0 to n - 1 do if m land (1 lsl b) <> 0 then incr c done; !c in
+    let rec dfs (mask : int) (st : st) : bool =
       incr nodes;
-      if mask = full then begin
-        if final_ok st universe finals then true else (why := "final-tables-match-no-sequential-order"; false)
-      end else begin
-        let key = (mask, state_key st) in
-        if Hashtbl.mem seen key then false else begin
-          Hashtbl.add seen key ();
-          (* candidates: pending operations not preceded (in real time) by another pending operation *)
+      if mask = full then (if final_ok st then true else (why := "final-tables-match-no-sequential-order"; false))
+      else begin
+        let k = (mask, key st) in
+        if Hashtbl.mem seen k then false else begin
+          Hashtbl.add seen k ();
           let min_resp = ref max_int in
           for i = 0 to n - 1 do
-            if mask land (1 lsl i) = 0 && ops.(i).resp < !min_resp then min_resp := ops.(i).resp
+            if mask land (1 lsl i) = 0 && ops.(i).g_resp < !min_resp then min_resp := ops.(i).g_resp
           done;
-          let found = ref false in
-          let i = ref 0 in
+          let found = ref false and i = ref 0 in
           while not !found && !i < n do
-            let k = !i in
-            if mask land (1 lsl k) = 0 && ops.(k).inv < !min_resp then begin
-              let (st', res) = apply st ops.(k).op in
-              let expected = ops.(k).res in
-              let same = match ops.(k).op with
-                | RibOp _ | FibOp _ -> true
-                | List "fib" -> res = canon_listing expected
-                | List _ -> res = join_sorted (items_of expected)
-                | Look _ -> res = expected in
-              if same then begin
-                let cnt = ref 0 in
-                for b = 0 to n - 1 do if (mask lor (1 lsl k)) land (1 lsl b) <> 0 then incr cnt done;
-                if !cnt > !best then best := !cnt;
-                if dfs (mask lor (1 lsl k)) st' then found := true
-              end else if !why = "" || true then
-                why := Printf.sprintf "no-state-between-overlapping-operations-gives op=[%s] got=%s (e.g. sequential model gives %s)" ops.(k).text expected res
+            let j = !i in
+            if mask land (1 lsl j) = 0 && ops.(j).g_inv < !min_resp then begin
+              let (st', res) = apply st ops.(j).g_op in
+              (match res with
+               | Some r when r <> ops.(j).g_res ->
+                   why := Printf.sprintf "no-state-between-overlapping-operations-gives op=[%s] got=%s (e.g. sequential model gives %s)" ops.(j).g_text ops.(j).g_res r
+               | _ ->
+                   let c = popcount (mask lor (1 lsl j)) in
+                   if c > !best then best := c;
+                   if dfs (mask lor (1 lsl j)) st' then found := true)
             end;
             incr i
           done;
           !found
         end
       end in
-    if dfs 0 init_state then Printf.printf "LIN %s ok ops=%d nodes=%d\n" round n !nodes
-    else Printf.printf "LIN %s FAIL ops=%d linearized=%d nodes=%d %s\n" round n !best !nodes !why
+    if dfs 0 init then Printf.printf "%s %s ok ops=%d nodes=%d\n" tag round n !nodes
+    else Printf.printf "%s %s FAIL ops=%d linearized=%d nodes=%d %s\n" tag round n !best !nodes !why
+  end
+
+let check_round (round : string) (universe : name list) (recs : hrec list) (finals : (string * string) list) : unit =
+  let ops = Array.of_list (List.map (fun r -> { g_inv = r.inv; g_resp = r.resp; g_text = r.text; g_op = r.op; g_res = r.res }) recs) in
+  let apply st o =
+    let (st', res) = apply st o in
+    match o with
+    | RibOp _ | FibOp _ -> (st', None)
+    | _ -> (st', Some res) in
+  (* listings are compared in canonical form *)
+  Array.iteri (fun i r -> match r.g_op with
+      | List "fib" -> ops.(i) <- { r with g_res = canon_listing r.g_res }
+      | List _ -> ops.(i) <- { r with g_res = join_sorted (items_of r.g_res) }
+      | _ -> ()) ops;
+  linearize round "LIN" ops init_state apply state_key (fun st -> final_ok st universe finals)
+
+(* ---------- face table rounds ---------- *)
+type faceop = FaAdd of n | FaRem of n | FaGet of n
+let bindings_string (l : (n * n) list) : string =
+  join_sorted (List.map (fun (id, tok) -> dec_of_n id ^ "=" ^ dec_of_n tok) l)
+let bindings_of_string (s : string) : (n * n) list =
+  List.map (fun it -> match fields_of it with [id; tok] -> (n_of_dec id, n_of_dec tok) | _ -> failwith ("bad binding " ^ it)) (items_of s)
+
+let check_face_recorded (round : string) (n0 : n) (recs : (int * int * int * string list * string) list) (finals : (string * string) list) : unit =
+  let ops = Array.of_list (List.map (fun (_, inv, resp, opf, res) ->
+      let op = match opf with
+        | ["fadd"; tok] -> FaAdd (n_of_dec tok)
+        | ["frem"; id] -> FaRem (n_of_dec id)
+        | ["fget"; id] -> FaGet (n_of_dec id)
+        | _ -> failwith ("bad face op " ^ String.concat " " opf) in
+      { g_inv = inv; g_resp = resp; g_text = String.concat " " opf; g_op = op; g_res = res }) recs) in
+  let apply (t : ftable) o =
+    match o with
+    | FaAdd tok -> (match ft_step t (FAdd tok) with (t', Some id) -> (t', Some (dec_of_n id)) | (t', None) -> (t', None))
+    | FaRem id -> (fst (ft_step t (FRem id)), None)
+    | FaGet id -> (t, Some (match ft_get t.ft_faces id with Some tok -> dec_of_n tok | None -> "-")) in
+  let key (t : ftable) = dec_of_n t.ft_next ^ "#" ^ bindings_string t.ft_faces in
+  let final_ok (t : ftable) =
+    List.for_all (fun (kind, value) -> match kind with
+        | "faces" | "dispatch" -> bindings_string t.ft_faces = join_sorted (items_of value)
+        | _ -> true) finals in
+  linearize round "FACE" ops { ft_next = n0; ft_faces = [] } apply key final_ok
+
+let check_face_heavy (round : string) (n0 : n) (adds : (nat * n * n) list) (rems : n list) (finals : (string * string) list) : unit =
+  let bad = List.filter_map (fun (kind, value) ->
+      match kind with
+      | "faces" | "dispatch" ->
+          let final = bindings_of_string value in
+          if face_round_ok n0 (List.map (fun (g, tok, id) -> ((g, tok), id)) adds) rems final then None
+          else Some kind
+      | _ -> None) finals in
+  if bad = [] then Printf.printf "FACE %s ok adds=%d removes=%d\n" round (List.length adds) (List.length rems)
+  else begin
+    (* say what is wrong, for the replay *)
+    let ids = List.map (fun (_, _, id) -> dec_of_n id) adds in
+    let sorted = List.sort compare ids in
+    let rec dups = function a :: (b :: _ as r) -> if a = b then a :: dups r else dups r | _ -> [] in
+    Printf.printf "FACE %s FAIL adds=%d removes=%d not-the-outcome-of-any-sequential-order in=%s duplicate-ids=[%s] n0=%s\n" round
+      (List.length adds) (List.length rems) (String.concat "," bad) (String.concat "," (List.sort_uniq compare (dups sorted))) (dec_of_n n0)
   end
 
 let main () =
   let rounds = ref 0 in
   let cur_round = ref "" and universe = ref [] and recs = ref [] and finals = ref [] in
+  let face_mode = ref "" and n0 = ref N0 and frecs = ref [] and fadds = ref [] and frems = ref [] in
   let lineno = ref 0 in
   (try
     while true do
@@ -132,7 +185,9 @@ let main () =
       (try
         match String.split_on_char ' ' line with
         | "R" :: id :: impl :: m :: _ ->
-            cur_round := id ^ ":" ^ impl ^ m; universe := []; recs := []; finals := []; incr rounds
+            cur_round := id ^ ":" ^ impl ^ m; universe := []; recs := []; finals := []; face_mode := ""; incr rounds
+        | ["FR"; id; mode; _g; start] ->
+            cur_round := id ^ ":F"; face_mode := mode; n0 := n_of_dec start; frecs := []; fadds := []; frems := []; finals := []; recs := []; incr rounds
         | "U" :: names -> universe := List.map name_of_string (List.filter (fun s -> s <> "") names)
         | "H" :: g :: inv :: resp :: rest ->
             let rec split acc = function
@@ -140,11 +195,18 @@ let main () =
               | x :: r -> split (x :: acc) r
               | [] -> (List.rev acc, "") in
             let (opf, res) = split [] rest in
-            recs := { g = int_of_string g; inv = int_of_string inv; resp = int_of_string resp;
-                      text = String.concat " " opf; op = parse_op opf; res } :: !recs
+            if !face_mode <> "" then frecs := (int_of_string g, int_of_string inv, int_of_string resp, opf, res) :: !frecs
+            else recs := { g = int_of_string g; inv = int_of_string inv; resp = int_of_string resp;
+                           text = String.concat " " opf; op = parse_op opf; res } :: !recs
+        | ["A"; g; tok; id] -> fadds := (nat_of_int (int_of_string g), n_of_dec tok, n_of_dec id) :: !fadds
+        | ["D"; id] -> frems := n_of_dec id :: !frems
         | ["F"; kind; value] -> finals := (kind, value) :: !finals
         | "X" :: rest -> Printf.printf "ANOMALY %s %s\n" !cur_round (String.concat " " rest)
-        | ["E"] -> if !recs <> [] || !finals <> [] then check_round !cur_round !universe (List.rev !recs) (List.rev !finals)
+        | ["E"] ->
+            if !face_mode = "rec" then check_face_recorded !cur_round !n0 (List.rev !frecs) (List.rev !finals)
+            else if !face_mode = "heavy" then check_face_heavy !cur_round !n0 (List.rev !fadds) (List.rev !frems) (List.rev !finals)
+            else if !recs <> [] || !finals <> [] then check_round !cur_round !universe (List.rev !recs) (List.rev !finals);
+            face_mode := ""
         | [""] | [] -> ()
         | _ -> Printf.printf "BADLINE %d %s\n" !lineno line
       with Failure msg | Invalid_argument msg -> Printf.printf "BADLINE %d %s (%s)\n" !lineno line msg)
